@@ -252,11 +252,13 @@ func (u *Unreliable) WriteMsgUDP(b, oob []byte, addr *net.UDPAddr) (n, oobn int,
 		return 0, 0, io.EOF
 	}
 
-	dataLength := uint16(len(b))
-	if uint16(len(b)) > MaxFrameDataLength {
+	// Check the length before narrowing it: a message of 65536 bytes or more
+	// must be refused, not truncated to its length modulo 65536.
+	if len(b) > int(MaxFrameDataLength) {
 		err = transport.ErrBufOverflow
 		return n, oobn, err
 	}
+	dataLength := uint16(len(b))
 
 	pkt := frame{
 		tubeID: u.id,
